@@ -4,18 +4,53 @@ Known findings are excluded by macro guards that are ON by default; switch one o
 (with native replay):   C14_NO_KNOWN=OVERREAD,CR_LOST,APPEND_FAIL ./bin/vcheck --unit c14_parse_call -v
 """
 import os
+import re
 from vrun import U
 
 UNITS = []
 _off = set(x.strip() for x in os.environ.get('C14_NO_KNOWN', '').split(',') if x.strip())
 KNOWN = ''.join('#define KNOWN_F_C14_%s 1\n' % k for k in ('OVERREAD', 'CR_LOST', 'APPEND_FAIL') if k not in _off)
+REPO = os.environ.get('VERIF_REPO', '/repo')
+
+
+def flat_multipart():
+    """htp_multipart.c with the `goto STATE_SWITCH` back edges of htp_mpartp_parse folded into the loop's own back edge.
+
+    CBMC nests back edges that share a loop head (symex_transition resets the counters of the "inner" ones), so the four
+    `goto STATE_SWITCH` edges + the while edge cost the PRODUCT of their bounds and still trip unwinding assertions.
+    The rewrite is line-preserving and purely control-flow:
+        while (pos < len) {            ->  while (c14_again || pos < len) { c14_again = 0;
+        goto STATE_SWITCH;             ->  { c14_again = 1; goto C14_NEXT; }          (every occurrence)
+        } // switch \n    }            ->  } // switch \n    C14_NEXT: ; }
+    `goto STATE_SWITCH` = "re-enter the loop body without testing pos < len"; so is the replacement.  Every pattern
+    must fire the expected number of times, otherwise the unit is UNDECIDED (#error), never silently different."""
+    path = os.path.join(REPO, 'htp', 'htp_multipart.c')
+    try:
+        s = open(path).read()
+        a = re.subn(r'while \(pos < len\) \{(\s*\n\s*STATE_SWITCH:)', r'while (c14_again || pos < len) { c14_again = 0;\1', s)
+        b = re.subn(r'goto STATE_SWITCH;', '{ c14_again = 1; goto C14_NEXT; }', a[0])
+        c = re.subn(r'(\} // switch\n    )\}(\n\n    return HTP_OK;\n\}\n\nstatic void htp_mpartp_validate_boundary)', r'\1C14_NEXT: ; }\2', b[0])
+        if a[1] != 1 or b[1] < 1 or c[1] != 1 or s.count('\n') != c[0].count('\n'):
+            raise ValueError('patterns fired %d/%d/%d times' % (a[1], b[1], c[1]))
+        names = re.findall(r'^(?!static)[A-Za-z_][A-Za-z0-9_ \*]*?\b(htp_[a-z_0-9]+)\(.*\) *\{$', s, flags=re.M)
+        # native replay links the whole library next to this TU: give the TU's copy private names there
+        ren = '#ifdef VNATIVE\n' + ''.join('#define %s c14n_%s\n' % (n, n) for n in names) + '#endif\n'
+        return ren + 'static int c14_again;\n#line 1 "%s"\n%s\n' % (path, c[0])
+    except (OSError, ValueError) as e:
+        return '#error "c14: cannot normalise htp_mpartp_parse: %s"\n' % str(e).replace('"', "'")
+
 
 # ---------------------------------------------------------------------------------------------------------
 # 1 + 2.  htp_mpartp_parse, one call from an arbitrary well-formed matcher state
 # ---------------------------------------------------------------------------------------------------------
 PARSE_PRE = KNOWN + '''#define C14_PARSE_UNIT 1
-#define bstr_builder_append_mem c14_bb_append_mem   /* the parser's set-aside store goes through the logging wrapper */
-'''
+/* the parser's set-aside store (boundary_pieces) is the builder MODEL of contracts/c14_mpart.h */
+#define bstr_builder_append_mem c14_bb_append_mem
+#define bstr_builder_size c14_bb_size
+#define bstr_builder_clear c14_bb_clear
+#define htp_list_array_size c14_list_size
+#define htp_list_array_get c14_list_get
+''' + flat_multipart()
 PARSE_ASSUMES = [
     'per call: the start state is symbolic within WF (contracts/c14_mpart.h: c14_parse_harness), so every call history is covered; '
     'the chunk has exactly N bytes (quick 6, thorough 9), all byte values',
@@ -37,12 +72,9 @@ def parse_unwind(n, bl, pcap):
     dflt = max(n, plen, bl) + 2            # harness / stub / reference loops: constant bounds <= max(N, PLEN, BL) + 1
     us = {
         'htp_martp_process_aside.0': pmax + 2, 'htp_martp_process_aside.1': pmax + 2,   # replay of <= PMAX stored pieces
-        'bstr_builder_clear.0': pmax + 3, 'c14_check_pieces.0': pmax + 3,
-        'htp_mpartp_parse.0': n // 2 + 2,      # goto STATE_SWITCH after CR LF: once per CRLF pair
-        'htp_mpartp_parse.1': n + 2,           # goto after LF: once per LF
-        'htp_mpartp_parse.3': n + 2,           # goto after a refuted candidate: each candidate is refuted at most once
-        'htp_mpartp_parse.4': n // (bl - 2) + 3,   # goto after a completed delimiter: >= BL-2 bytes each (the carried one fewer)
-        'htp_mpartp_parse.2': n + 2, 'htp_mpartp_parse.5': n + 2, 'htp_mpartp_parse.6': n + 3,
+        'c14_check_pieces.0': pmax + 3,
+        'htp_mpartp_parse.0': n + 2, 'htp_mpartp_parse.1': n + 2,     # inner scans of STATE_DATA / STATE_BOUNDARY
+        'htp_mpartp_parse.2': 2 * n + 4,       # dispatches: every one consumes a byte or follows one that did (see notes)
     }
     return dflt, ','.join('%s:%d' % kv for kv in sorted(us.items()))
 
@@ -50,7 +82,7 @@ def parse_unwind(n, bl, pcap):
 def parse_unit(name, n, bl, pcap, timeout, thorough_only=False):
     dflt, us = parse_unwind(n, bl, pcap)
     UNITS.append(U(
-        name=name, props=['C14', 'C01'], kind='bounded', src=['htp_multipart.c'], link=['bstr.c', 'bstr_builder.c', 'htp_list.c'],
+        name=name, props=['C14', 'C01'], kind='bounded', src=[], link=[],
         replay='vin', contracts_inc=['c14_mpart.h'], pre=PARSE_PRE,
         harness='void HARNESS(void) { VIN(vin_t); c14_parse_harness(in); CANARY(); }',
         defs={'quick': {'N': n, 'BL': bl, 'PCAP': pcap}},
